@@ -306,6 +306,11 @@ func genValidLiteral(t *rapid.T, thorough bool) string {
 		if thorough && ir(t, 0, 40, "hugeZ") == 0 {
 			z = ir(t, 32700, 66000, "zHuge")
 		}
+		if ir(t, 0, 5, "edgeZ") == 0 {
+			// no written exponent, the zeros alone carry the value to the bottom of the range (or the digit count to
+			// a 15/16-bit counter's limit)
+			z = []int{6176, 6142, 6111, 6210, 32767, 65535}[ir(t, 0, 5, "zEdge")] + ir(t, -40, 5, "zOff")
+		}
 		body := digitString(t, ir(t, 1, 40, "n"))
 		if ir(t, 0, 1, "fracZeros") == 0 {
 			intD, fracD, hasDot = "0", strings.Repeat("0", z)+body, true
